@@ -716,7 +716,8 @@ class MultiFit(FitBase):
         for _fit in self._fits:
             _cost_func = _fit._cost_function
             if _cost_func.add_determinant_cost and not (self._shared_error_nodes_initialized and _cost_func.is_chi2):
-                _cost -= _fit._nexus.get("total_cov_mat_log_determinant").value
+                # the determinant term is the last argument of the member's cost function
+                _cost -= _fit._nexus.get(_cost_func.arg_names[-1]).value
         return self._cost_function.chi2_probability(_cost, self.ndf)
 
     # -- public methods
